@@ -44,7 +44,9 @@ for name in sorted(os.listdir("/verif/seeded")):
         meta["rechecked_at_repo_head"] = {"repo_head": head, "patch_applies": r["patch"] == "ok",
             "demo_exit_clean_tree": r["demo_clean"], "demo_exit_with_change": r["demo_mutant"],
             "how": "tools/seeded_matrix.sh (scratch worktree; quick tier of the listed checks with VERIF_REPO pointing at the patched copy)"}
-        meta["detected_by"] = {k: ("VIOLATION (exit 1)" if v == "1" else "not reported (exit %s)" % v) for k, v in r["checks"].items()}
+        det = dict(old.get("detected_by", {}))  # checks of other properties recorded in earlier runs stay
+        det.update({k: ("VIOLATION (exit 1)" if v == "1" else "not reported (exit %s)" % v) for k, v in r["checks"].items()})
+        meta["detected_by"] = det
     elif "detected_by" in old:
         meta["rechecked_at_repo_head"] = old.get("rechecked_at_repo_head"); meta["detected_by"] = old["detected_by"]
     if name in resp:
